@@ -87,6 +87,10 @@ def generate(rng, tier):
             bits = {"u32": 32, "u64": 64, "u128": 128}[ty]
             s = rng.choice([0, 1, (1 << bits) - 1, rng.getrandbits(bits)])
             small = rand_digits(rng, rng.choice([0, 1, 1, 2, 2, 3]))
+            if rng.random() < 0.4:
+                # subtrahend LONGER than the scalar's width but with small low digits: must panic
+                # (a truncating pad of the subtrahend would silently drop the high digits)
+                small = [rng.choice([0, 1, 7]), 0] + [0] * rng.choice([0, 1, 2]) + [rng.choice([1, 5, MAXD])]
             cases.append("u.scalar_sub %s %s" % (S(ty, s), U(small)))
         else:
             cases.append("u.cmp %s %s" % (U(a), U(b)))
